@@ -52,6 +52,7 @@ type exitRec struct {
 	nDefers int  // number of deferred calls registered when the panic was raised
 	ptyp    Term // dynamic type id of the panic value, when known
 	final   bool // panic raised while running deferred calls: not handled again
+	blk     *ssa.BasicBlock
 }
 
 type FnExec struct {
